@@ -168,6 +168,13 @@ func (x *Exec) remat(st *State, v ssa.Value) Value {
 		}
 	case *ssa.UnOp:
 		if ins.Op == token.MUL {
+			if al, ok := ins.X.(*ssa.Alloc); ok && constCell(al) {
+				// an immutable cell (spilled, never reassigned parameter) still holds its value
+				quiet := st.fx.eng.quiet(st)
+				defer quiet()
+				x.step(st, x.fx.fn, ins, true)
+				return st.env[v]
+			}
 			// a load whose location is never written in this function still has its value
 			if k := staticKey(ins.X); k != "?" && !x.fx.touches(k) && !x.fx.modAll {
 				if _, isAlloc := ins.X.(*ssa.Alloc); !isAlloc {
@@ -184,6 +191,27 @@ func (x *Exec) remat(st *State, v ssa.Value) Value {
 			x.step(st, x.fx.fn, ins, true)
 			return st.env[v]
 		}
+	case *ssa.MakeMap:
+		val := st.named(v.Type(), "v:"+v.Name())
+		st.assume("(not (= " + val.T + " 0))") // a made map is never nil
+		st.env[v] = val
+		return val
+	case *ssa.MakeSlice:
+		// the slice value made before the cut: same (unknown) array, its length and capacity
+		// are still the operands' values
+		lv := x.get(st, ins.Len)
+		cv := x.get(st, ins.Cap)
+		name := sym("ms:" + ins.Name())
+		st.declare(name, "Int")
+		st.assume(fmt.Sprintf("(and (>= %s |brk0|) (< %s %s) (> %s 0))", name, name, st.brk, name))
+		for _, o := range st.remat {
+			st.assume(fmt.Sprintf("(not (= %s %s))", name, o))
+		}
+		st.remat = append(st.remat, name)
+		val := Value{K: VSlice, Arr: name, Off: "0", Len: lv.T, Cap: cv.T, Ty: ins.Type()}
+		st.assume(fmt.Sprintf("(and (<= 0 %s) (<= %s %s))", lv.T, lv.T, cv.T))
+		st.env[v] = val
+		return val
 	case *ssa.Call:
 		if b, ok := ins.Call.Value.(*ssa.Builtin); ok && (b.Name() == "len" || b.Name() == "cap" || b.Name() == "min" || b.Name() == "max") {
 			quiet := st.fx.eng.quiet(st)
@@ -193,6 +221,20 @@ func (x *Exec) remat(st *State, v ssa.Value) Value {
 		}
 	}
 	val := st.named(v.Type(), "v:"+v.Name())
+	// the result of a pure library constructor documented to be non-nil is still non-nil
+	if call, ok := v.(*ssa.Call); ok {
+		if callee, ok := call.Call.Value.(*ssa.Function); ok {
+			if k := x.eng.cs.Funcs[funcFullName(callee)]; k != nil && k.Pure {
+				for _, en := range k.Ensures {
+					for _, cj := range x.eng.cs.goals(en.E) {
+						if strings.ReplaceAll(cj.String(), " ", "") == "(result!=nil)" && (val.K == VRef || val.K == VIface || val.K == VMap || val.K == VFunc) {
+							st.assume("(not (= " + val.T + " 0))")
+						}
+					}
+				}
+			}
+		}
+	}
 	// a closure value keeps its function identity
 	if mc, ok := v.(*ssa.MakeClosure); ok {
 		val.Clo = &Closure{Fn: mc.Fn}
@@ -256,12 +298,18 @@ func (x *Exec) step(st *State, fn *ssa.Function, ins ssa.Instruction, top bool) 
 		a := x.get(st, ins.Addr)
 		x.nilCheck(st, ins, a)
 		val := x.get(st, ins.Val)
+		ad := x.addrOf(st, a, ins)
 		if len(x.eng.cs.NonNil) > 0 && val.K < VSlice && val.K >= VRef && x.eng.cs.NonNil[fullTypeName(ins.Val.Type())] {
 			if _, isAlloc := ins.Addr.(*ssa.Alloc); !isAlloc {
-				x.panicObl(st, ins, "nonnil", "(not (= "+val.T+" 0))", "nil stored into a location of a type declared non-nil")
+				goal := "(not (= " + val.T + " 0))"
+				if strings.HasPrefix(ad.Key, "elem:") && ad.Root != "" {
+					// an array allocated by this very call is not visible to anybody else yet: what it
+					// holds when it is handed out is the producer's postcondition, not an at-rest invariant
+					goal = fmt.Sprintf("(or %s (>= %s |brk0|))", goal, ad.Root)
+				}
+				x.panicObl(st, ins, "nonnil", goal, "nil stored into a location of a type declared non-nil")
 			}
 		}
-		ad := x.addrOf(st, a, ins)
 		ix := ""
 		if len(ad.Idx) > 0 {
 			ix = ad.Idx[0]
